@@ -961,5 +961,8 @@ func runC04(a vh.Args, o *vh.Oracle, r *vh.Result) error {
 	if err := c04Stores(a, r, rng, nstore); err != nil {
 		return err
 	}
+	if err := c04S3(a, r, rng, nstore/2); err != nil {
+		return err
+	}
 	return c04CLI(a, o, r, rng)
 }
